@@ -211,6 +211,11 @@ fn shape_failures(i: usize, toks: &[Token], src: &[char], plain: bool) -> Vec<(&
             if text.is_empty() {
                 out.push(("shape_word_empty", format!("empty word token at {:?}", t.span)));
             }
+            // no lexer rule and no condensing rule puts a quote character or a backslash under a Word (lex_word stops at
+            // punctuation; contractions join with an apostrophe): a Word over `"h` means the spans are laid over another text
+            if text.iter().any(|c| is_quote_char(*c) || *c == '\\') {
+                out.push(("shape_word_quote", format!("word token over a quote / backslash character: {:?} at {:?}", s, t.span)));
+            }
         }
         TokenKind::Space(_) => {
             // plain English: only ' ' and '\t' (proved); other front-ends take over the whitespace runs of
@@ -574,6 +579,10 @@ fn case_frontend(rep: &mut Report, fe: &str, text: &str, dict: &Arc<FstDictionar
     for i in 0..ts.len() {
         for (c, m) in shape_failures(i, &ts, &src, fe == "plain") {
             let marker = if across_gap(ts[i].span) { " [condensed across a gap]" } else { "" };
+            if c == "shape_word_quote" && !marker.is_empty() {
+                rep.count("word_over_quote_only_because_condensed_across_a_gap(F28)");
+                continue;
+            }
             fail(rep, c, format!("[{fe}] {m}{marker}"), inp.clone());
         }
     }
@@ -1512,7 +1521,74 @@ pub fn run(a: &Args, corpus: &[Value]) {
             }
         }
     }
+    // ---- Typst string literals with escape sequences (seeded c02-6): the VALUE of the literal is shorter than its spelling;
+    // tokens must be laid over the spelling.  Escapes followed by words / quotes / numbers / punctuation, in #let, function
+    // arguments, content blocks and arrays; multi-byte characters before and after the escape.
+    for t in TYPST_STRINGS {
+        case_frontend(&mut rep, "typst", t, &dict);
+    }
+    for _ in 0..a.scale(120, 2500) {
+        let t = typst_string_doc(&mut r);
+        case_frontend(&mut rep, if r.chance(1, 5) { "typst+ci" } else { "typst" }, &t, &dict);
+        rep.count("typst_string_literal_doc");
+    }
     rep.finish();
+}
+
+const TYPST_STRINGS: &[&str] = &[
+    "#let greeting = \"say \\\"hi\\\" to them now\"",
+    "#let p = \"C:\\\\dir\\\\file 1st 3.5 ok\"",
+    "#let n = \"one\\ntwo\\tthree, 21st \\\"q\\\".\"",
+    "#let u = \"snow \\u{2603} man 0x1F e.g. done\"",
+    "#text(\"é \\\" ü “x” 12\")[body \"lit\\\\eral word\"]",
+    "#let a = (\"a\\\"b\", \"c d\", \"\\\\\")\n\nPlain \"markup\" text.",
+    "#let e = \"\\\"\"",
+    "#let r = \"\\r\\n x\"",
+];
+
+fn typst_string_doc(r: &mut Rng) -> String {
+    let esc = ["\\\"", "\\\\", "\\n", "\\t", "\\r", "\\u{e9}", "\\u{1F600}", "\\u{2603}", "\\\"\\\"", "\\\\\\\""];
+    let mut lit = |r: &mut Rng| -> String {
+        let mut s = String::from("\"");
+        for _ in 0..r.range(1, 6) {
+            match r.below(8) {
+                0..=2 => s.push_str(r.s(&esc)),
+                3 => s.push_str(r.s(C02_ITEMS)),
+                4 => s.push_str(r.s(&["é", "“", "”", "値", "😀", "'", "’", ".", ", ", "...", "1st", "3.14", "0x1F", "42"])),
+                _ => s.push_str(r.s(gen::COMMON)),
+            }
+            s.push_str(r.s(&[" ", " ", "", "  "]));
+        }
+        // the generated pieces must not close the literal early or leave a dangling backslash
+        let body: String = s[1..].to_string();
+        let mut clean = String::from("\"");
+        let cs: Vec<char> = body.chars().collect();
+        let mut i = 0;
+        while i < cs.len() {
+            if cs[i] == '\\' && i + 1 < cs.len() {
+                clean.push(cs[i]);
+                clean.push(cs[i + 1]);
+                i += 2;
+            } else if cs[i] == '"' || cs[i] == '\\' {
+                i += 1;
+            } else {
+                clean.push(cs[i]);
+                i += 1;
+            }
+        }
+        clean.push('"');
+        clean
+    };
+    let mut out = String::new();
+    for _ in 0..r.range(1, 3) {
+        match r.below(5) {
+            0 | 1 => out.push_str(&format!("#let x = {}\n\n", lit(r))),
+            2 => out.push_str(&format!("{} #text({})[{}]\n\n", gen::clean_sentence(r), lit(r), gen::clean_sentence(r))),
+            3 => out.push_str(&format!("#let a = ({}, {})\n\n", lit(r), lit(r))),
+            _ => out.push_str(&format!("é #figure(caption: {})[{}]\n\n", lit(r), gen::clean_sentence(r))),
+        }
+    }
+    out
 }
 
 fn main() {
